@@ -144,7 +144,23 @@ func (o *optionDefinitions) asOptions() []util.Option { //nolint: gocyclo,gocogn
 		case transportSystemOpenArgs:
 			strSliceVal, ok := opt.Value.([]string)
 			if !ok {
-				panic("option transportSystemOpenArgs value must be an array of strings")
+				// when loaded from yaml/json the value is a slice of interface rather than of
+				// strings
+				ifaceSliceVal, ifaceOk := opt.Value.([]interface{})
+				if !ifaceOk {
+					panic("option transportSystemOpenArgs value must be an array of strings")
+				}
+
+				strSliceVal = make([]string, len(ifaceSliceVal))
+
+				for idx, ifaceVal := range ifaceSliceVal {
+					strVal, strOk := ifaceVal.(string)
+					if !strOk {
+						panic("option transportSystemOpenArgs value must be an array of strings")
+					}
+
+					strSliceVal[idx] = strVal
+				}
 			}
 
 			opts[i] = options.WithSystemTransportOpenArgs(strSliceVal)
